@@ -63,6 +63,17 @@ def _bytes_vec(b, data, align=16):
     return b.EndVector()
 
 
+# Legal but unusual encodings of the same model, selected per tensor (`t.enc`) or per network (`net.enc`); a file written
+# with any of them means the same to a TFLite runtime as the usual encoding:
+#   tensor: no_zp (scale without zero_point vector = zero point 0), no_scale (zero_point without scale), empty_qvectors
+#           (present-but-empty scale / zero_point vectors), empty_quant_table (QuantizationParameters without fields), no_name,
+#           no_shape (absent shape vector = scalar), shape_signature (explicit, equal to the static shape), empty_data_buffer
+#           (own buffer with a zero-length data vector), own_empty_buffer (attribute: own buffer without data vector)
+#   network: old_opcodes (only deprecated_builtin_code for codes < 127), no_sg_name, no_description
+ENCODINGS = ("no_zp", "no_scale", "empty_qvectors", "empty_quant_table", "no_name", "no_shape", "shape_signature",
+             "empty_data_buffer", "old_opcodes", "no_sg_name", "no_description")
+
+
 def serialize(net):
     b = flatbuffers.Builder(1024)
     BuiltinOperator = _m("BuiltinOperator").BuiltinOperator
@@ -81,6 +92,10 @@ def serialize(net):
             if tensor_buf[i] is None:
                 tensor_buf[i] = len(datas)
                 datas.append(None)
+            elif "empty_data_buffer" in getattr(t, "enc", ()):
+                # a buffer of its own whose data vector is present but has length 0 (legal; semantically no data)
+                tensor_buf[i] = len(datas)
+                datas.append(b"")
     for d in datas:
         dv = _bytes_vec(b, d) if d is not None else None
         Buffer.Start(b)
@@ -92,8 +107,11 @@ def serialize(net):
     QP = _m("QuantizationParameters")
     t_offsets = []
     for i, t in enumerate(net.tensors):
-        name = b.CreateString(t.name)
-        shape = _vec(b, 4, t.shape, b.PrependInt32)
+        # `t.enc`: legal but unusual encodings of the same tensor (see docstring of `ENCODINGS`); nothing changes when unset
+        enc = getattr(t, "enc", ())
+        name = b.CreateString(t.name) if "no_name" not in enc else None
+        shape = _vec(b, 4, t.shape, b.PrependInt32) if "no_shape" not in enc else None
+        shape_sig = _vec(b, 4, t.shape, b.PrependInt32) if "shape_signature" in enc else None
         q = None
         qmin, qmax = getattr(t, "qmin", None), getattr(t, "qmax", None)
         if t.scales is not None or qmin is not None or qmax is not None:
@@ -103,6 +121,10 @@ def serialize(net):
             if t.scales is not None:
                 sc = _vec(b, 4, [float(x) for x in t.scales], b.PrependFloat32)
                 zp = _vec(b, 8, [int(x) for x in (t.zps if t.zps is not None else [0] * len(t.scales))], b.PrependInt64)
+            if "no_zp" in enc:
+                zp = None        # zero_point vector absent: TFLite reads zero point 0
+            if "no_scale" in enc:
+                sc = None        # zero_point without scale
             QP.Start(b)
             if mn is not None:
                 QP.AddMin(b, mn)
@@ -110,18 +132,34 @@ def serialize(net):
                 QP.AddMax(b, mx)
             if sc is not None:
                 QP.AddScale(b, sc)
+            if zp is not None:
                 QP.AddZeroPoint(b, zp)
             QP.AddQuantizedDimension(b, t.qdim)
             q = QP.End(b)
+        elif "empty_qvectors" in enc or "empty_quant_table" in enc:
+            # a QuantizationParameters table that says nothing: present-but-empty vectors, or no field at all
+            sc = zp = None
+            if "empty_qvectors" in enc:
+                sc = _vec(b, 4, [], b.PrependFloat32)
+                zp = _vec(b, 8, [], b.PrependInt64)
+            QP.Start(b)
+            if sc is not None:
+                QP.AddScale(b, sc)
+                QP.AddZeroPoint(b, zp)
+            q = QP.End(b)
         Tensor.Start(b)
-        Tensor.AddShape(b, shape)
+        if shape is not None:
+            Tensor.AddShape(b, shape)
         Tensor.AddType(b, TT[t.dtype])
         Tensor.AddBuffer(b, tensor_buf[i])
-        Tensor.AddName(b, name)
+        if name is not None:
+            Tensor.AddName(b, name)
         if q is not None:
             Tensor.AddQuantization(b, q)
         if t.variable:
             Tensor.AddIsVariable(b, True)
+        if shape_sig is not None:
+            Tensor.AddShapeSignature(b, shape_sig)
         t_offsets.append(Tensor.End(b))
     # operator codes
     codes = []
@@ -136,7 +174,8 @@ def serialize(net):
         code = getattr(BuiltinOperator, kind)
         OperatorCode.Start(b)
         OperatorCode.AddDeprecatedBuiltinCode(b, min(code, 127))
-        OperatorCode.AddBuiltinCode(b, code)
+        if not ("old_opcodes" in getattr(net, "enc", ()) and code < 127):
+            OperatorCode.AddBuiltinCode(b, code)      # files older than schema v3a carry only the deprecated int8 code
         OperatorCode.AddVersion(b, ver)
         if ccs is not None:
             OperatorCode.AddCustomCode(b, ccs)
@@ -176,24 +215,26 @@ def serialize(net):
     iv = _vec(b, 4, net.inputs, b.PrependInt32)
     ov = _vec(b, 4, net.outputs, b.PrependInt32)
     opv = _vec(b, 4, op_offsets, b.PrependUOffsetTRelative)
-    sgname = b.CreateString(net.name)
+    sgname = b.CreateString(net.name) if "no_sg_name" not in getattr(net, "enc", ()) else None
     SubGraph.Start(b)
     SubGraph.AddTensors(b, tv)
     SubGraph.AddInputs(b, iv)
     SubGraph.AddOutputs(b, ov)
     SubGraph.AddOperators(b, opv)
-    SubGraph.AddName(b, sgname)
+    if sgname is not None:
+        SubGraph.AddName(b, sgname)
     sg = SubGraph.End(b)
     Model = _m("Model")
     sgv = _vec(b, 4, [sg], b.PrependUOffsetTRelative)
     ocv = _vec(b, 4, oc_offsets, b.PrependUOffsetTRelative)
     bv = _vec(b, 4, buf_offsets, b.PrependUOffsetTRelative)
-    desc = b.CreateString("velaverif netgen")
+    desc = b.CreateString("velaverif netgen") if "no_description" not in getattr(net, "enc", ()) else None
     Model.Start(b)
     Model.AddVersion(b, 3)
     Model.AddOperatorCodes(b, ocv)
     Model.AddSubgraphs(b, sgv)
-    Model.AddDescription(b, desc)
+    if desc is not None:
+        Model.AddDescription(b, desc)
     Model.AddBuffers(b, bv)
     m = Model.End(b)
     b.Finish(m, b"TFL3")
